@@ -359,7 +359,7 @@ def run(ctx):
     ctx.sample(dict(space='wrap', text='ab\n -\n\nend: ' + LONG[:6] + '...', params=dict(width=16, indent=4, offset=3)))
     ctx.sample(dict(space='layout', lines=['class C:', '    _z = 3', '', '', '    def g(self):', '        return 1']))
     ctx.sample(dict(space='captured', what='every template rendering of baseline L and the max state, 3 transports x 2 template sets, before fix_whitespace'))
-    if tot['n'] < 100000 or lay['parsed'] < 1000 or cap['n'] < 300:
+    if tot['n'] < 100000 or lay['parsed'] < 1000 or cap['n'] < 300 and not ctx.violations:
         raise HarnessError(f'C20 exploration collapsed: {tot} {lay} {cap}')
     for key, v in sorted(allfails.items()):
         ctx.violation(key, f'[{v["space"]}] {v["kind"]} on {v["text"]!r} params={v["params"]}: {v["detail"]}',
